@@ -7,39 +7,73 @@ record carries the fabric index; ACL entries and group keys live inside the fabr
 with it by construction).  The danger is the index: `Fabrics::add` hands out `max + 1`, so the index
 of a fabric that went away is given to the next one.
 
-1. `noRef_always`: **invariant** - after every history (any session, any order, store faults
-   included; factory reset excluded) every non-expired secure session and every resumption record
-   refers to a fabric index that is in the fabric table.
+"Usable" means: the session is in the table and not marked expired.  An expired session takes no NEW
+exchange (`transport/session.rs:540`) - the model refuses every command on it - but the code still
+delivers messages of an exchange that is already open on it (`get_exch_for_rx` is asked before the
+expiry mark): the one session this matters for is the session that issued the RemoveFabric /
+ArmFailSafe(0) / RevokeCommissioning itself, which is kept (expired) exactly for sending the answer
+of that open exchange.  The theorems say nothing about exchanges already open on an expired session.
+
+1. `noRef_always`: **invariant** - after EVERY history (any session, any order, store faults, restarts,
+   crash points and the factory reset included) every non-expired secure session and every resumption
+   record refers to a fabric index that is in the fabric table.  (Factory reset: since the repo fix of
+   `C07-factory-reset-keeps-sessions`, `Matter::factory_reset` drops the sessions of the fabrics and the
+   resumption records whatever the store answers.)
 2. `gone_fabric_unreferenced`: hence, once a fabric index is not in the table (RemoveFabric, fail-safe
-   rollback), nothing usable refers to it.
-3. `rmfab_gone`, `rollback_gone`: RemoveFabric / a rollback that does not find a stored copy really
-   take the index out of the table.
+   rollback, factory reset), nothing usable refers to it.
+3. `rmfab_gone_or_untouched`, `rollback_gone`: RemoveFabric / a rollback that does not find a stored
+   copy really take the index out of the table.
 4. `new_fabric_starts_clean` (index reuse): when AddNOC creates a fabric, the only non-expired
    session on its index is the PASE session that issued the command, and no resumption record is -
    an old session / old credentials cannot reach the new fabric.
-5. `rmfab_others_untouched`, `rollback_others_untouched`: sessions of other fabrics are unaffected.
+5. `rmfab_others_untouched`, `expiry_others_untouched` (`rollback_others_untouched`): sessions of other
+   fabrics are unaffected - also the session of another fabric that triggers a forced expiry.
 
-6. **Ghost generations** (`noDangling_always`, `restart_noDangling`, `noDangling_calm`): every fabric
-   gets a fresh generation id at `AddNOC`; a session / resumption record carries the generation it was
-   made for.  `NoDangling`: whatever is usable refers to a fabric that exists WITH THAT GENERATION - so
-   the re-use of a fabric index is covered by the invariant itself.  It holds after every history
-   without restart / factory reset, store faults included; a restart keeps it when the stored
-   resumption records fit the stored fabrics (`RecOK`).
+6. **Ghost generations** (`noDangling_always`, `restart_noDangling`, `C07_full_noDangling_holds`): every
+   fabric gets a fresh generation id at `AddNOC`; a session / resumption record carries the generation
+   it was made for.  `NoDangling`: whatever is usable refers to a fabric that exists WITH THAT
+   GENERATION - so the re-use of a fabric index is covered by the invariant itself.
+   `C07_full_noDangling_holds`: it holds after EVERY history - store faults, restarts, crash points and
+   factory resets together - in which no factory reset is hit by a store fault (`ResetsClean`,
+   decidable).  A factory reset that IS hit by one answers the error and leaves fabric keys in the
+   store; carrying on from there breaks the statement (`faulty_reset_witness`, open finding
+   `C07-faulty-factory-reset-leaves-keys`).
 -/
 namespace C07
 open Admin
 
-/-- **Invariant.** -/
-theorem noRef_run (cfg : Cfg) (ops : List Op) : ∀ (n : Node), NoRef n → Op.freset ∉ ops → NoRef (run cfg n ops) := by
+/-- **Invariant**, for every history - no operation of the alphabet is excluded. -/
+theorem noRef_run (cfg : Cfg) (ops : List Op) : ∀ (n : Node), NoRef n → NoRef (run cfg n ops) := by
   induction ops with
-  | nil => intro n h _; exact h
+  | nil => intro n h; exact h
   | cons op rest ih =>
-    intro n h hno
-    have hop : op ≠ .freset := fun he => hno (by rw [he]; exact List.mem_cons_self)
-    exact ih _ (step_noRef cfg n op h hop) (fun hm => hno (List.mem_cons_of_mem _ hm))
+    intro n h
+    exact ih _ (step_noRef cfg n op h)
 
-theorem noRef_always (cfg : Cfg) (ops : List Op) (hno : Op.freset ∉ ops) : NoRef (run cfg {} ops) :=
-  noRef_run cfg ops {} noRef_init hno
+theorem noRef_always (cfg : Cfg) (ops : List Op) : NoRef (run cfg {} ops) :=
+  noRef_run cfg ops {} noRef_init
+
+/-- **An old session cannot reach a fabric commissioned after a factory reset** (the repaired finding
+`C07-factory-reset-keeps-sessions`): whatever the state and whatever the store answers, after the
+factory reset there is no fabric, no session that belongs to a fabric and no resumption record. -/
+theorem factory_reset_drops_references (cfg : Cfg) (n : Node) :
+    (step cfg n .freset).1.fabrics = [] ∧
+    (∀ s ∈ (step cfg n .freset).1.sessions, s.mode.fab = 0) ∧
+    (step cfg n .freset).1.resum = [] := by
+  have ⟨h1, h2, h3, _⟩ := factoryReset_mem n
+  refine ⟨h1, fun s hs => ?_, h3⟩
+  have hs' : s ∈ (factoryReset n).1.sessions := hs
+  rw [h2, List.mem_filter] at hs'
+  simpa using hs'.2
+
+/-- the replay of the finding: commissioning, CASE session 1 of peer 100, factory reset, a new fabric
+gets index 1 - the old session is gone (before the repair `acl 1 77` was accepted on the new fabric) -/
+example :
+    let ops : List Op := [.boot, .pase, .arm 0 60, .csr 0 false, .root 0 1, .addnoc 0 1 5 10 100 1,
+      .caseEst 1 100 1, .complete 1, .freset, .boot, .pase, .arm 2 60, .csr 2 false, .root 2 2,
+      .addnoc 2 2 6 11 101 2]
+    (run {} {} ops).fabrics.length = 1 ∧ (step {} (run {} {} ops) (.acl 1 77)).2 = .err "nosess" := by
+  refine ⟨by decide +kernel, by decide +kernel⟩
 
 /-- nothing usable refers to a fabric index that is not in the table -/
 theorem gone_fabric_unreferenced (n : Node) (h : NoRef n) (i : Nat) (hi : i ≠ 0) (hgone : hasFabric n i = false) :
@@ -50,7 +84,17 @@ theorem gone_fabric_unreferenced (n : Node) (h : NoRef n) (i : Nat) (hi : i ≠ 
   · have := h.2 r hr
     rw [hf, hgone] at this; cases this
 
-example : ∃ n : Node, NoRef n ∧ hasFabric n 1 = false := ⟨{}, noRef_init, rfl⟩
+/-- two fabrics with a CASE session each; RemoveFabric of fabric 1 over the session of fabric 2: the
+state is `NoRef`, index 1 is gone, the session and the resumption record of fabric 2 are still there -/
+example :
+    let ops : List Op := [.boot, .pase, .arm 0 60, .csr 0 false, .root 0 1, .addnoc 0 1 5 10 100 1,
+      .caseEst 1 100 1, .complete 1, .boot, .pase, .arm 2 60, .csr 2 false, .root 2 2,
+      .addnoc 2 2 6 11 101 2, .caseEst 2 101 2, .complete 3, .rmfab 3 1]
+    NoRef (run {} {} ops) ∧ hasFabric (run {} {} ops) 1 = false ∧ hasFabric (run {} {} ops) 2 = true ∧
+    (run {} {} ops).sessions.map (fun s => (s.id, s.mode.fab, s.expired)) = [(3, 2, false)] ∧
+    (run {} {} ops).resum.map (·.fab) = [2] := by
+  intro ops
+  exact ⟨noRef_always {} ops, by decide, by decide, by decide, by decide⟩
 
 /-! ## the fabric really goes away -/
 
@@ -106,14 +150,14 @@ theorem rollback_gone (cfg : Cfg) (n : Node) (a : Armed) (fs : List Fabric) (h0 
 /-- **A new fabric starts clean**: when AddNOC creates the fabric `idx` in a `NoRef` state, the only
 non-expired session bound to `idx` afterwards is the session `sid` that issued the command (the PASE
 session promoted by it), and no resumption record is bound to `idx`. -/
-theorem new_fabric_starts_clean (cfg : Cfg) (n : Node) (sid s ca fid node subj ser idx : Nat) (mode : Mode)
-    (h : NoRef n) (hacc : (sessOp cfg n sid mode (.addnoc s ca fid node subj ser)).2 = .okIdx idx) :
-    (∀ s' ∈ (sessOp cfg n sid mode (.addnoc s ca fid node subj ser)).1.sessions,
+theorem addNoc_starts_clean (cfg : Cfg) (n : Node) (sid ca fid node subj ser idx : Nat) (mode : Mode)
+    (h : NoRef n) (hacc : (addNoc cfg n sid mode ca fid node subj ser).2 = .okIdx idx) :
+    (∀ s' ∈ (addNoc cfg n sid mode ca fid node subj ser).1.sessions,
         s'.expired = false → s'.mode.fab = idx → s'.id = sid) ∧
-    (∀ r' ∈ (sessOp cfg n sid mode (.addnoc s ca fid node subj ser)).1.resum, r'.fab ≠ idx) ∧
+    (∀ r' ∈ (addNoc cfg n sid mode ca fid node subj ser).1.resum, r'.fab ≠ idx) ∧
     hasFabric n idx = false := by
-  generalize hres : sessOp cfg n sid mode (.addnoc s ca fid node subj ser) = r at hacc ⊢
-  simp only [sessOp] at hres
+  generalize hres : addNoc cfg n sid mode ca fid node subj ser = r at hacc ⊢
+  simp only [addNoc] at hres
   -- what freshness of the new index gives in a `NoRef` state
   have key : ∀ idx', (if maxIdx n.fabrics < 254 then some (maxIdx n.fabrics + 1)
         else List.find? (fun i => decide (1 ≤ i) && !hasFabric n i) (List.range 255)) = some idx' →
@@ -153,6 +197,32 @@ theorem new_fabric_starts_clean (cfg : Cfg) (n : Node) (sid s ca fid node subj s
     subst hacc
     exact ⟨fun s' hs' he hf => absurd hf (k1 s' hs' he), k2, k3⟩
 
+/-- the same for the whole command (the retry of a failed resumption-cache store that precedes it
+touches neither the fabric table nor the sessions nor the cache) -/
+theorem new_fabric_starts_clean (cfg : Cfg) (n : Node) (sid s ca fid node subj ser idx : Nat) (mode : Mode)
+    (h : NoRef n) (hacc : (sessOp cfg n sid mode (.addnoc s ca fid node subj ser)).2 = .okIdx idx) :
+    (∀ s' ∈ (sessOp cfg n sid mode (.addnoc s ca fid node subj ser)).1.sessions,
+        s'.expired = false → s'.mode.fab = idx → s'.id = sid) ∧
+    (∀ r' ∈ (sessOp cfg n sid mode (.addnoc s ca fid node subj ser)).1.resum, r'.fab ≠ idx) ∧
+    hasFabric n idx = false := by
+  simp only [sessOp] at hacc ⊢
+  rcases retryResum_cases n with hr | hr
+  · rw [hr] at hacc ⊢
+    exact addNoc_starts_clean cfg n sid ca fid node subj ser idx mode h hacc
+  · rw [hr] at hacc ⊢
+    have h1 := storeResum_noRef n h
+    have ⟨hfr, _⟩ := storeResum_spec n
+    rcases hst : storeResum n with ⟨n1, b⟩
+    rw [hst] at hacc h1 hfr
+    cases b with
+    | false => simp at hacc
+    | true =>
+      have := addNoc_starts_clean cfg n1 sid ca fid node subj ser idx mode h1 hacc
+      refine ⟨this.1, this.2.1, ?_⟩
+      have h3 := this.2.2
+      rw [hasFabric_eq] at h3 ⊢
+      rw [← hfr.fabrics]; exact h3
+
 /-! ## other fabrics -/
 
 /-- RemoveFabric keeps every session of the other fabrics exactly as it was -/
@@ -188,17 +258,125 @@ theorem rollback_others_untouched (n : Node) (removed exp : Option Nat) (s : Ses
 example : ∃ (l : List Sess) (s : Sess), s ∈ l ∧ s.mode.fab ≠ 1 ∧ some s.id ≠ (none : Option Nat) :=
   ⟨[{ id := 0, mode := .case 2, peer := 1, expired := false, gen := 0 }], _, List.mem_cons_self, by decide, by simp⟩
 
+/-- **RemoveFabric leaves the sessions of the other fabrics exactly as they were** - acknowledged or
+not: every session that is not on the removed index is still in the table, unchanged (the issuing
+session included when it belongs to another fabric: it is expired only when it is on the removed one) -/
+theorem rmfab_others_untouched (cfg : Cfg) (n : Node) (sid s idx : Nat) (mode : Mode) (t : Sess)
+    (ht : t ∈ n.sessions) (hf : t.mode.fab ≠ idx) (hown : t.id = sid → mode.fab ≠ idx) :
+    t ∈ (sessOp cfg n sid mode (.rmfab s idx)).1.sessions := by
+  simp only [sessOp]
+  split
+  · exact ht
+  · split
+    · have ⟨_, p2, _⟩ := purgeResum_mem n idx
+      rcases hp : purgeResum n idx with ⟨n2, b⟩
+      rw [hp] at p2
+      simp only at p2
+      cases b with
+      | false => simp only []; rw [p2]; exact ht
+      | true =>
+        simp only []
+        have hfr := (removeFabricKey_spec n2 idx).1
+        rcases hrk : removeFabricKey n2 idx with ⟨n3, b3⟩
+        rw [hrk] at hfr
+        simp only at hfr
+        have ht3 : t ∈ n3.sessions := by rw [hfr.sessions, p2]; exact ht
+        cases b3 with
+        | false => exact ht3
+        | true =>
+          simp only [ok]
+          apply removeForFabric_others _ _ _ t ht3 hf
+          split
+          · rename_i hm
+            intro he
+            injection he with he
+            exact hown he hm
+          · simp
+    · exact ht
+
+/-- **A rollback leaves the sessions of the other fabrics exactly as they were - also the one that
+triggers it**: a CASE session that is not on the fabric the rollback removes stays in the table,
+unchanged, even when it is the session that issued ArmFailSafe(0) / RevokeCommissioning (`exp`);
+needed: no session with its id is on the removed fabric (session ids are unique in the code). -/
+theorem rollback_others_untouched_trigger (n : Node) (removed exp : Option Nat) (s : Sess) (hs : s ∈ n.sessions)
+    (hc : s.mode.isPase = false) (hf : ∀ idx, removed = some idx → ∀ t ∈ n.sessions, t.id = s.id → t.mode.fab ≠ idx) :
+    s ∈ rollbackSessions n removed exp := by
+  unfold rollbackSessions
+  cases removed with
+  | none => exact removePase_others _ _ s hs hc
+  | some idx =>
+    apply removePase_others _ _ s _ hc
+    apply removeForFabric_others _ _ _ s hs (hf idx rfl s hs rfl)
+    cases exp with
+    | none => simp
+    | some e =>
+      simp only []
+      split
+      · rename_i hany
+        intro he
+        injection he with he
+        rw [List.any_eq_true] at hany
+        obtain ⟨t, htm, htc⟩ := hany
+        simp only [decide_eq_true_eq] at htc
+        exact hf idx rfl t htm (by rw [htc.1, he]) htc.2
+      · simp
+
+/-- the same for the whole expiry (`FailSafe::expire`, whichever of its three callers) -/
+theorem expiry_others_untouched (cfg : Cfg) (n : Node) (a : Armed) (exp : Option Nat) (s : Sess) (hs : s ∈ n.sessions)
+    (hc : s.mode.isPase = false) (hf : ∀ t ∈ n.sessions, t.id = s.id → t.mode.fab ≠ a.fab) :
+    s ∈ (expireAndPurge cfg n a exp).1.sessions := by
+  have hexp : s ∈ (expireArmed cfg n a exp).1.sessions := by
+    unfold expireArmed
+    cases hr : rollbackFabrics cfg n a with
+    | error e => exact hs
+    | ok fs =>
+      simp only []
+      apply rollback_others_untouched_trigger n _ exp s hs hc
+      intro idx hidx t ht hid
+      split at hidx
+      · injection hidx with hidx; rw [← hidx]; exact hf t ht hid
+      · cases hidx
+  unfold expireAndPurge
+  rcases hres : expireArmed cfg n a exp with ⟨n1, e, r⟩
+  rw [hres] at hexp
+  cases e with
+  | some e => exact hexp
+  | none =>
+    cases r with
+    | none => exact hexp
+    | some idx =>
+      simp only []
+      have := purgeResum_sessions n1 idx
+      rcases hp : purgeResum n1 idx with ⟨n2, b⟩
+      rw [hp] at this
+      cases b <;> (simp only []; rw [this]; exact hexp)
+/-- fabrics 1 and 2 with a CASE session each, a third commissioning in flight (fail-safe bound to the
+new fabric 3): the session of fabric 2 forces the expiry (`ArmFailSafe(0)` is accepted from any
+session) - fabric 3 goes, the sessions of fabrics 1 and 2 stay, the triggering one included, not expired -/
+example :
+    let ops : List Op := [.boot, .pase, .arm 0 60, .csr 0 false, .root 0 1, .addnoc 0 1 5 10 100 1,
+      .caseEst 1 100 1, .complete 1, .boot, .pase, .arm 2 60, .csr 2 false, .root 2 2,
+      .addnoc 2 2 6 11 101 2, .caseEst 2 101 2, .complete 3, .boot, .pase, .arm 4 60, .csr 4 false,
+      .root 4 3, .addnoc 4 3 7 12 102 3, .caseEst 3 102 3]
+    (run {} {} ops).fs.map (·.fab) = some 3 ∧
+    (∀ t ∈ (run {} {} ops).sessions, t.id = 3 → t.mode.fab ≠ 3) ∧
+    (step {} (run {} {} ops) (.arm 3 0)).2 = .ok ∧
+    (step {} (run {} {} ops) (.arm 3 0)).1.sessions.map (fun s => (s.id, s.mode.fab, s.expired)) =
+      [(1, 1, false), (3, 2, false)] := by
+  refine ⟨by decide, by decide, by decide, by decide⟩
+
 /-! ## the ghost-generation form -/
 
-/-- **`NoDangling` is an invariant** (together with `StoreSub`): after every history without restart
-and factory reset - any command order, any session, reserved sessions that complete later, store
-faults at any write - every non-expired secure session and every resumption record refers to a fabric
-that exists with the generation it was made for. -/
-theorem noDangling_always (cfg : Cfg) (ops : List Op) (hno : Op.freset ∉ ops)
+/-- **`NoDangling` is an invariant** (together with `StoreSub`): after every history without restart -
+any command order, any session, reserved sessions that complete later, store faults at any write,
+factory resets that no store fault hits - every non-expired secure session and every resumption
+record refers to a fabric that exists with the generation it was made for.  (Superseded by
+`C07_full_noDangling_holds`, which has the restarts as well; kept because it needs `GenInv` only.) -/
+theorem noDangling_always (cfg : Cfg) (ops : List Op) (hno : ResetsClean cfg {} ops)
     (hnr : ∀ op ∈ ops, restartLike op = false) : NoDangling (run cfg {} ops) :=
   (run_genInv cfg ops {} genInv_init hno hnr).1
 
-example : ∃ ops : List Op, Op.freset ∉ ops ∧ (∀ op ∈ ops, restartLike op = false) ∧
+example : ∃ ops : List Op, ResetsClean {} {} ops ∧ (∀ op ∈ ops, restartLike op = false) ∧
     (run {} {} ops).sessions.length = 2 :=
   ⟨[.boot, .pase, .arm 0 60, .csr 0 false, .root 0 1, .addnoc 0 1 5 10 100 1, .caseEst 1 100 1],
    by decide, by decide, by decide⟩
@@ -225,43 +403,81 @@ theorem no_record_of_another_incarnation (n : Node) (h : NoDangling n) (r : Resu
   rw [hf] at this
   simpa using this.symm
 
-/-- **Restarts included**: for every history in which no store fault fires (`Calm`: the fault
-counter is 0 in every state - decidable), restarts, crash points, corrupted resumption blobs and the
-factory-reset-before-start-up included: nothing dangles.  (Index re-use across a restart is covered:
-the stored resumption records always fit the stored fabrics, `RecOK`.) -/
-theorem noDangling_calm (cfg : Cfg) (ops : List Op) (hno : Op.freset ∉ ops) (hcalm : Calm cfg {} ops) :
+/-- **The full statement: EVERY history** - store faults at any write, restarts, crash points (restart
+from ANY element of the store history), corrupted resumption blobs, the factory-reset-before-start-up
+and factory resets of the running node, all together: nothing dangles.  The one exclusion
+(`ResetsClean`, decidable on histories): no factory reset of the history is hit by a store fault (and
+the stored fabric indices are in the key range `1..255` it walks - a `u8` in the code).  Index re-use
+across a restart is covered: the stored resumption records always fit the stored fabrics (`RecOK`).
+This became provable with the repair of `C07-failed-purge-on-rollback`: a store of the (purged)
+resumption cache that failed is remembered (`resumStale`) and retried before `AddNOC` makes a new
+fabric - a stored record whose fabric is gone can only be there while the mark is set (`RecLive`), and
+no fabric index is handed out while it is. -/
+def C07_full_noDangling : Prop :=
+  ∀ (cfg : Cfg) (ops : List Op), ResetsClean cfg {} ops → NoDangling (run cfg {} ops)
+
+theorem C07_full_noDangling_holds : C07_full_noDangling :=
+  fun cfg ops hno => (run_good cfg ops {} genInv_init rec_init hno).1.1
+
+/-- in particular for every history without factory reset -/
+theorem noDangling_without_reset (cfg : Cfg) (ops : List Op) (hno : Op.freset ∉ ops) :
     NoDangling (run cfg {} ops) :=
-  (run_good cfg ops {} genInv_init rec_init hno hcalm).1.1
+  C07_full_noDangling_holds cfg ops (resetsClean_of_none cfg ops {} hno)
 
 /-- ... and every store a crash can leave behind is fit for a restart -/
-theorem every_snapshot_recOK (cfg : Cfg) (ops : List Op) (hno : Op.freset ∉ ops) (hcalm : Calm cfg {} ops) :
+theorem every_snapshot_recOK (cfg : Cfg) (ops : List Op) (hno : ResetsClean cfg {} ops) :
     RecOK (run cfg {} ops).kv ∧ ∀ kv ∈ (run cfg {} ops).hist, RecOK kv := by
-  have ⟨hg, hr⟩ := run_good cfg ops {} genInv_init rec_init hno hcalm
+  have ⟨hg, hr⟩ := run_good cfg ops {} genInv_init rec_init hno
   exact ⟨recOK_of hg hr.live, hr.hist⟩
 
-/-- the hypotheses are satisfiable by a history with removal, restart and re-use of the index -/
+/-- **What the exclusion excludes** (open finding `C07-faulty-factory-reset-leaves-keys`, replayed on
+the real code): the factory reset is hit by a store fault at the first fabric key - it answers the
+error, key 1 stays in the store.  The node carries on: a new fabric gets index 1, a CASE session is
+established on it, the fail-safe runs out - the rollback "restores" the stored copy of the OLD
+fabric 1, and the session made for the new one is usable on it. -/
+def faultyResetOps : List Op :=
+  [.boot, .pase, .arm 0 60, .csr 0 false, .root 0 1, .addnoc 0 1 5 10 100 1, .caseEst 1 100 1, .complete 1,
+   .kvfail 1, .freset, .boot, .pase, .arm 2 60, .csr 2 false, .root 2 2, .addnoc 2 2 6 11 101 2,
+   .caseEst 1 101 2, .tick 61, .poll]
+
+theorem faulty_reset_witness :
+    ¬ ResetsClean {} {} faultyResetOps ∧ ¬ NoDangling (run {} {} faultyResetOps) ∧
+    NoRef (run {} {} faultyResetOps) := by
+  refine ⟨by decide +kernel, ?_, noRef_always {} _⟩
+  intro h
+  have hs : ({ id := 3, mode := .case 1, peer := 101, expired := false, gen := 2 } : Sess) ∈
+      (run {} {} faultyResetOps).sessions := by decide +kernel
+  have := h.1 _ hs rfl (by decide)
+  revert this
+  decide +kernel
+
+/-- a history WITH a factory reset of the running node that satisfies the hypothesis: commissioning,
+CASE session, factory reset, a new commissioning that re-uses index 1, restart -/
+example :
+    let ops : List Op := [.boot, .pase, .arm 0 60, .csr 0 false, .root 0 1, .addnoc 0 1 5 10 100 1,
+      .caseEst 1 100 1, .complete 1, .flush, .freset, .boot, .pase, .arm 2 60, .csr 2 false, .root 2 2,
+      .addnoc 2 2 6 11 101 2, .caseEst 1 101 2, .complete 3, .restart]
+    ResetsClean {} {} ops ∧ Op.freset ∈ ops ∧ (run {} {} ops).fabrics.map (·.gen) = [2] := by
+  refine ⟨by decide +kernel, by decide, by decide +kernel⟩
+
+/-- a history with removal, restart, re-use of the index and a crash point -/
 example :
     let ops : List Op := [.boot, .pase, .arm 0 60, .csr 0 false, .root 0 1, .addnoc 0 1 5 10 100 1,
       .caseEst 1 100 1, .complete 1, .flush, .rmfab 1 1, .restart, .boot, .pase, .arm 0 60, .csr 0 false,
       .root 0 2, .addnoc 0 2 6 11 101 2, .caseEst 1 101 2, .complete 1, .crash 3]
-    Op.freset ∉ ops ∧ Calm {} {} ops ∧ (run {} {} ops).fabrics.length = 1 := by
+    ResetsClean {} {} ops ∧ Calm {} {} ops ∧ (run {} {} ops).fabrics.length = 1 := by
   refine ⟨by decide, by decide, by decide⟩
 
-/-- full statement: for EVERY history without factory reset - store faults and restarts together.
-FALSE of the code (open finding `C07-failed-purge-on-rollback`): when the store of the purged
-resumption cache fails during a fail-safe rollback, the stored blob keeps a record of the dropped
-fabric; after a re-commissioning that re-uses the index and a restart, the record is loaded next to
-the new fabric. -/
-def C07_full_noDangling : Prop :=
-  ∀ (cfg : Cfg) (ops : List Op), Op.freset ∉ ops → NoDangling (run cfg {} ops)
-
-theorem C07_full_noDangling_false : ¬ C07_full_noDangling := by
-  intro h
-  have hd := h {} [.boot, .pase, .arm 0 60, .csr 0 false, .root 0 1, .addnoc 0 1 5 10 100 1, .caseEst 1 100 1,
-    .flush, .kvfail 1, .arm 1 0, .pase, .arm 2 60, .csr 2 false, .root 2 2, .addnoc 2 2 6 11 101 2,
-    .caseEst 1 101 2, .complete 3, .restart] (by decide)
-  have := hd.2 { fab := 1, peer := 100, rid := 1, gen := 1 } (by decide)
-  revert this
-  decide
+/-- (`Calm` = the fault counter is 0 in every state of the run, i.e. the history has no `kvfail k`
+with `k > 0` at all - it only DESCRIBES the two examples, no theorem needs it any more.)
+The history of the repaired finding `C07-failed-purge-on-rollback` (a store fault during the
+rollback, index re-use, restart): the failed store is retried by the second `AddNOC`, the restart
+loads no record of the dropped fabric -/
+example :
+    let ops : List Op := [.boot, .pase, .arm 0 60, .csr 0 false, .root 0 1, .addnoc 0 1 5 10 100 1, .caseEst 1 100 1,
+      .flush, .kvfail 1, .arm 1 0, .pase, .arm 2 60, .csr 2 false, .root 2 2, .addnoc 2 2 6 11 101 2,
+      .caseEst 1 101 2, .complete 3, .restart]
+    ResetsClean {} {} ops ∧ ¬ Calm {} {} ops ∧ (run {} {} ops).resum = [] ∧ (run {} {} ops).fabrics.length = 1 := by
+  refine ⟨by decide, by decide, by decide, by decide⟩
 
 end C07
